@@ -55,6 +55,16 @@ FOCUS = {
        "which html5() was called, remove_insignificant_whitespace followed by a move, a repair call followed by a second "
        "repair call, an accessor used while a mutable view of another element is alive earlier in the history. The change "
        "itself must still be a small, plausible slip in ONE place.",
+    8: "ROUND 8. Three directions. (1) Unusual but legal ARGUMENTS to the property's entry points: the node passed is an "
+       "attribute / namespace / text / comment / PI / document node or the root of an unattached tree where an attached "
+       "element is typical; an io::Write that accepts only part of a buffer or fails; closures (filters, comparisons, "
+       "prefix / namespace lookups, normalizers) that are not symmetric, not idempotent or return None; empty collections, "
+       "empty strings, the same node passed twice. (2) Library state the caller set up earlier: text consolidation switched "
+       "off (or toggled on, off, on), a Xot obtained from Default / clone / clone_from, a Xot that holds other documents and "
+       "removed nodes, names registered in another order, html5() already called, a previous call on the same value that "
+       "returned an error. (3) Slips in ERROR paths and early returns: the function reports the right error but leaves "
+       "something changed, returns Ok where one particular kind of argument needs Err (or the reverse), or skips the cleanup "
+       "after an early `?`. The change itself must still be a small, plausible slip in ONE place.",
 }
 for pid in want:
     wt = "/tmp/wt%d-%s" % (rnd, pid)
